@@ -6,7 +6,7 @@ usage: tools/confirm_seeded.py <name> <patch> <demo.cpp> <notes.md> <needs-text>
 Steps (all in a scratch worktree of /repo HEAD under /tmp/wt/confirm, removed by the caller when done):
   1. patch applies; the library's own test-suite builds and all 71 tests pass WITH the patch
   2. the demonstration exits non-zero with the patch and zero without it
-  3. each named check is run against /repo with the patch applied (and reverted afterwards); its verdict lines are recorded
+  3. each named check is run against a scratch worktree with the patch applied (tools/try_mutant.sh, VERIF_REPO); its verdict lines are recorded
 """
 import json, os, shutil, subprocess, sys
 
@@ -58,7 +58,7 @@ def main():
         keys = sorted(set(l.split("key=")[1].strip() for l in lines if "key=" in l))
         verdict = "VIOLATION" if any(l.startswith("VIOLATION") for l in lines) else ("HELD" if any(l.startswith("HELD") for l in lines) else "OTHER")
         caught_by[cid] = {"verdict": verdict, "violation_keys": keys[:8], "n_keys": len(keys)}
-        meta["ran"].append({"cmd": "./check %s --tier quick (patch applied to /repo, reverted afterwards)" % cid, "result": verdict + (" " + keys[0] if keys else "")})
+        meta["ran"].append({"cmd": "VERIF_REPO=<scratch worktree with the patch> ./check %s --tier quick" % cid, "result": verdict + (" " + keys[0] if keys else "")})
     meta["suite_passes_with_patch"] = suite_ok
     meta["demo_fails_with_and_passes_without"] = demo_ok
     meta["checks"] = caught_by
